@@ -40,11 +40,36 @@ fn value_roundtrip<T: DeserializeOwned + Serialize + PartialEq>(reference: &Valu
     Some(t1 == t0 && serde_json::to_value(&t1).ok()? == j1)
 }
 
-fn channels<T: DeserializeOwned + Serialize + PartialEq>(v: &Value, reference: &Value) -> Value {
-    let text = serde_json::to_string(v).unwrap();
+/// the document as TEXT with the members of every object in the order the scenario lists them (`__obj__` pair lists)
+fn ordered_text(raw: &Value, escape: bool, out: &mut String) {
+    let s = |x: &str, out: &mut String| if escape { esc(x, out) } else { out.push_str(&Value::String(x.to_string()).to_string()) };
+    match raw {
+        Value::Object(m) if m.contains_key("__obj__") => {
+            out.push('{');
+            for (i, kv) in m["__obj__"].as_array().unwrap().iter().enumerate() { if i > 0 { out.push(','); } s(kv[0].as_str().unwrap(), out); out.push(':'); ordered_text(&kv[1], escape, out); }
+            out.push('}');
+        }
+        Value::Array(a) => { out.push('['); for (i, x) in a.iter().enumerate() { if i > 0 { out.push(','); } ordered_text(x, escape, out); } out.push(']'); }
+        Value::String(x) => s(x, out),
+        other => out.push_str(&other.to_string()),
+    }
+}
+
+fn channels<T: DeserializeOwned + Serialize + PartialEq>(v: &Value, reference: &Value) -> Value { channels_raw::<T>(v, reference, None) }
+fn channels_raw<T: DeserializeOwned + Serialize + PartialEq>(v: &Value, reference: &Value, raw: Option<&Value>) -> Value {
+    let mut text = serde_json::to_string(v).unwrap();
     let mut esc_text = String::new();
     escaped_text(v, &mut esc_text);
-    let pretty = serde_json::to_string_pretty(v).unwrap();
+    let mut pretty = serde_json::to_string_pretty(v).unwrap();
+    let mut tree = v.clone();
+    if let Some(raw) = raw {
+        // member order as written; the tree is what serde_json makes of that very text
+        text = String::new(); ordered_text(raw, false, &mut text);
+        esc_text = String::new(); ordered_text(raw, true, &mut esc_text);
+        pretty = text.clone();
+        tree = serde_json::from_str::<Value>(&text).expect("the scenario text is JSON");
+    }
+    let v = &tree;
     let rs: Vec<Result<T, serde_json::Error>> = vec![
         serde_json::from_str::<T>(&text),
         serde_json::from_str::<T>(&esc_text),
@@ -66,6 +91,23 @@ pub fn run(sc: &Value) -> Value {
     use in_toto::crypto::{KeyId, KeyType, PublicKey, Signature, HashValue};
     use in_toto::models::*;
     let v = build(&sc["value"]);
+    if sc["text_order"] == true {
+        let raw = Some(&sc["value"]); let n = Value::Null;
+        return match sc["type"].as_str().unwrap() {
+            "ArtifactRule" => channels_raw::<rule::ArtifactRule>(&v, &n, raw),
+            "Step" => channels_raw::<step::Step>(&v, &n, raw),
+            "Inspection" => channels_raw::<inspection::Inspection>(&v, &n, raw),
+            "LinkMetadata" => channels_raw::<LinkMetadata>(&v, &n, raw),
+            "LayoutMetadata" => channels_raw::<LayoutMetadata>(&v, &n, raw),
+            "Metablock" => channels_raw::<Metablock>(&v, &n, raw),
+            "PublicKey" => channels_raw::<PublicKey>(&v, &n, raw),
+            "Signature" => channels_raw::<Signature>(&v, &n, raw),
+            "ByProducts" => channels_raw::<byproducts::ByProducts>(&v, &n, raw),
+            "PredicateWrapper" => channels_raw::<PredicateWrapper>(&v, &n, raw),
+            "StatementWrapper" => channels_raw::<StatementWrapper>(&v, &n, raw),
+            other => json!({"outcome": format!("unsupported-type:{}", other)}),
+        };
+    }
     match sc["type"].as_str().unwrap() {
         "ArtifactRule" => channels::<rule::ArtifactRule>(&v, &sc["ref_value"]),
         "Step" => channels::<step::Step>(&v, &sc["ref_value"]),
